@@ -20,9 +20,9 @@ from vlib import core
 META = {
     "harness_bins": ["nkeval"],
     "extract": "C08.v",
-    "technique": "Coq proof on a mechanism-shaped model of pending contracts (arrays = (elements, pending), fields with pending contracts, primitives building closures exactly as operation.rs): a step-indexed logical relation shows that every observer pipeline blames iff it reaches the violating component, is insensitive to unreached components and otherwise equals the unannotated run; the model is tied to nickel by differential runs of generated `observe (v | T)` programs (extracted model vs nkeval) with an independent reach-table oracle on the implementation",
-    "level_text": "Theorems (coq/Props/C08.v) quantify over every container, position, observer pipeline (any length, any nesting of the modelled observers) and fuel. The model is hand-written from operation.rs / record.rs / internals.ncl / std.ncl; the tie is the correspondence run (same generated programs on the extracted model and on nickel built from /repo) plus the direct oracle (reach table, annotated vs unannotated run).",
-    "level_note": "Trusted: Coq kernel; extraction (ExtrOcamlBasic, ExtrOcamlNativeString); the hand-written model's reading of the Rust/Nickel sources; the generator and the Python reach table. Not modelled: thunk sharing/memoisation, environments, labels other than polarity, contract deduplication (push_dedup modelled as push), optional/undefined fields, the sealing contracts attached by the stdlib's polymorphic static types (C11), sort, non-integer numbers.",
+    "technique": "Coq proof on a mechanism-shaped model of pending contracts (arrays = (elements, pending_contracts), fields with pending contracts, primitives building closures exactly where operation.rs does): per-primitive pending_tracked lemmas + pipeline composition; a step-indexed logical relation between two runs that differ at one marked component and in how/with which labels the obligations are stored gives, for every pipeline of the 44 supported observers and every fuel, laziness (bottom_insensitive), blames-iff-reached and annotated-run = unannotated-run when not reached; refutation lemmas for two deliberately broken primitives and for the blame label after ArrayConcat. The model is tied to nickel by differential runs of generated `observe (v | T)` programs (extracted model vs nkeval, annotated and unannotated) with an independent reach-table oracle on the implementation",
+    "level_text": "Theorems (coq/Props/C08.v, 28 statements, closed under the global context) quantify over every container literal, position, annotation of the stated families, every pipeline (any length and nesting) of the supported observers, every fuel: (T0) each primitive delivers every component under its obligations and this composes along pipelines; (T0) a violating component is blamed iff the observation marker put in its place in the *unannotated* run comes out, otherwise the annotated run equals the unannotated one; (T0) an unreached component can be replaced by anything, e.g. a failing one, without changing the outcome; (T1) $func wraps every call; the closed index-arithmetic reach table for single observers agrees with the marker semantics. Outcomes are compared up to the polarity of a blame (the faithful model refutes the exact-label statement: C08_concat_label_refuted, reproduced on nickel as a known finding). The model is hand-written from operation.rs / record.rs / merge.rs / internals.ncl / std.ncl; the tie is the correspondence run (same generated programs on the extracted model and on nickel built from /repo) plus the direct oracle (Python reach table; annotated vs unannotated run).",
+    "level_note": "Trusted: Coq kernel; extraction (ExtrOcamlBasic, ExtrOcamlNativeString); the hand-written model's reading of the Rust/Nickel sources; the generator, Nickel printer and Python reach table. Partial: record merge (`&`) is modelled and generated but outside the theorems (a merged field is `(x & y) | contracts`, the merge inspects x before the check); the blames-iff-reached theorems need the annotation to check every component against Number with the listed names = the record's fields (wf_case), a record type / open record contract that reorders the fields changes the order in which `==` visits them (covered by the correspondence only); function containers have their own theorems (func_wraps_call, func_domain_blames_iff_forced). Not modelled: thunk sharing/memoisation, environments, labels other than polarity, contract deduplication (push_dedup modelled as push), optional/undefined fields, the sealing contracts attached by the stdlib's polymorphic static types (C11), sort/generate/partition, array merge, non-integer numbers.",
 }
 
 # --------------------------------------------------------------------------------------------------
@@ -125,6 +125,7 @@ def nk_body(o, v):
     if isinstance(o, str):
         simple = {"first": "std.array.first %s", "last": "std.array.last %s", "length": "std.array.length %s",
                   "reverse": "std.array.reverse %s", "flatten": "std.array.flatten %s",
+                  "sort": "std.array.sort (fun a b => if a < b then 'Lesser else if a == b then 'Equal else 'Greater) %s",
                   "fields": "std.record.fields %s", "values": "std.record.values %s",
                   "freeze": "%%record/freeze%% %s", "toarray": "std.record.to_array %s",
                   "serde": "std.deserialize 'Json (std.serialize 'Json %s)"}
@@ -421,7 +422,7 @@ def py_obs(o, t):
         return copy(v)
     if isinstance(o, str):
         v = t.get()
-        if o in ("first", "last", "length", "reverse", "flatten"):
+        if o in ("first", "last", "length", "reverse", "flatten", "sort"):
             need(isinstance(v, list))
             if o == "first":
                 need(len(v) > 0); return v[0].get()
@@ -431,6 +432,13 @@ def py_obs(o, t):
                 return len(v)
             if o == "reverse":
                 return list(reversed(v))
+            if o == "sort":
+                if len(v) <= 1:
+                    return v
+                vals = []
+                for e in v:
+                    x = e.get(); need(isnum(x)); vals.append(x)
+                return [th_val(x) for x in sorted(vals)]
             out = []
             for r in v:
                 rv = r.get(); need(isinstance(rv, list)); out += rv
@@ -634,7 +642,7 @@ def step_from(rng, ty, shape):
         if c < 78 and ty == "arrn":
             return ("elem", rng.range(0, 4)), "bool", {}
         if c < 83:
-            return "reverse", ty, shape
+            return ("sort" if ty == "arrn" and rng.chance(1, 3) else "reverse"), ty, shape
         if c < 88:
             return rng.choice(["seq", "deepseq", "serde"]), ty, shape
         if c < 96 and ty == "arrn":
